@@ -15,7 +15,10 @@ from pv.ref import ccl
 ID = 'C04'
 RULE = ('random small images (1x1..24x24) per generator class (integer ties, plateaus, checkerboards, '
         '2-D thresholds equal to the data on a subset, NaN/inf, masks, pruning, Quantity, detect_threshold, '
-        'SourceFinder); non-trivial = reference finds >=2 components before pruning OR prunes >=1 component; '
+        'SourceFinder, mixed precision); independently of the class: scaling by 2**k, memory layouts C/F/strided/'
+        'transposed/big-endian, call forms of threshold and npixels, 20 % strongly elongated images (1-3 x 40-120), '
+        'narrow / unsigned / half-precision dtypes holding the same integers, all-False masks, all-True masks '
+        '(documented ValueError); non-trivial = reference finds >=2 components before pruning OR prunes >=1 component; '
         'distinct by digest of (data, threshold, mask, npixels, connectivity)')
 CLASSES = ['ties', 'thr2d', 'plateau', 'checker', 'naninf', 'masked', 'tiny', 'prune',
            'quantity', 'threshold_fn', 'finder', 'mixprec']
@@ -42,6 +45,10 @@ def _shape(rng, cls):
     if cls == 'tiny':
         return [(1, 1), (1, int(rng.integers(1, 12))), (int(rng.integers(1, 12)), 1),
                 (2, 2), (1, 2), (2, 1)][int(rng.integers(0, 6))]
+    if rng.random() < 0.2:
+        # generic axis (viii): strongly non-square images in both orientations
+        a, b = int(rng.integers(1, 4)), int(rng.integers(40, 121))
+        return (a, b) if rng.random() < 0.5 else (b, a)
     return int(rng.integers(2, 25)), int(rng.integers(2, 25))
 
 
@@ -104,6 +111,20 @@ def _gen(case):
         mask = rng.random(shape) < rng.choice([0.1, 0.3, 0.6])
         if mask.all():
             mask[0, 0] = False
+    if cls in ('ties', 'prune', 'masked', 'thr2d', 'plateau', 'checker', 'finder') and rng.random() < 0.3:
+        # generic axis (vii): the same small integer values in a narrow / unsigned / half-precision dtype (exactly
+        # representable; for unsigned dtypes the image is shifted to be non-negative together with the threshold).
+        # The reference compares the float64 values of what the dtype holds.
+        dt = [np.float32, np.float16, np.int8, np.int16, np.int32, np.uint8, np.uint16, np.uint32, np.uint64,
+              np.int64][int(rng.integers(0, 10))]
+        if np.dtype(dt).kind == 'u':
+            off = float(-min(0.0, np.nanmin(data)))
+            data = data + off
+            thr = thr + off
+        data = data.astype(dt)
+    if mask is not None and rng.random() < 0.08:
+        # generic axis (xi): a mask that hides nothing / everything (the latter: nothing detected -> None + warning)
+        mask = np.zeros(shape, bool) if rng.random() < 0.6 else np.ones(shape, bool)
     if cls == 'prune':
         npix = int(rng.integers(2, max(3, shape[0] * shape[1] // 2 + 2)))
     if cls == 'tiny':
@@ -232,6 +253,22 @@ def run_case(case):
         call = lambda: detect_sources(data_q, thr_q, npix, connectivity=conn, mask=mask)  # noqa: E731
     else:
         call = lambda: detect_sources(data, thr, npix, connectivity=conn, mask=mask)  # noqa: E731
+    if mask is not None and mask.all():
+        # documented: "mask must not be True for every pixel" -> ValueError
+        try:
+            call()
+            case.check(False, 'all_true_mask_rejected', mech, got='no exception')
+        except ValueError as exc:
+            case.check('mask must not be True for every pixel' in str(exc), 'all_true_mask_rejected', mech,
+                       msg=str(exc)[:200])
+        case.note('axis2:all_true_mask')
+        return
+    if mask is not None and not mask.any():
+        case.note('axis2:all_false_mask')
+    if data.dtype != np.float64:
+        case.note('axis2:dtype:' + str(data.dtype))
+    if max(data.shape) >= 40:
+        case.note('axis2:elongated')
     with warnings.catch_warnings(record=True) as wlist:
         warnings.simplefilter('always')
         seg = call()
